@@ -51,7 +51,8 @@ const (
 
 func coin(w *chain.World, n int64) sdk.Coin { return sdk.NewCoin(w.TokenDenom(), sdk.NewInt(n)) }
 
-func build(aged bool) *scen {
+func build(kind string) *scen {
+	aged := kind == "aged"
 	s := &scen{}
 	w := chain.NewWorld()
 	s.w = w
@@ -100,6 +101,51 @@ func build(aged bool) *scen {
 		w.AdvanceToNextEpoch(chain.BlockDt)
 		w.NextBlock(24 * time.Hour)
 		w.AdvanceToNextEpoch(chain.BlockDt)
+	}
+	if kind == "late" {
+		// subscriptions bought 12 h before a monthly pools refill and served: a month later their month expires, and
+		// the payout (blocks-to-save later) falls into the last 24 h before the next refill. The fixture stops one
+		// block before the payouts run.
+		must := func(p string) {
+			if p != "" {
+				panic("fixture(late): " + p)
+			}
+		}
+		must(w.NextBlock(time.Duration(w.Keepers.Rewards.TimeToNextTimerExpiry(w.Ctx))*time.Second - 12*time.Hour))
+		must(w.AdvanceToNextEpoch(chain.BlockDt))
+		w.Must("buy", w.Buy(s.cons[0], s.cons[0], "plana", 2, false, false))
+		w.Must("buy", w.Buy(s.cons[1], s.cons[1], "planb", 1, false, false))
+		w.Must("fund", s.fund(0, specA, 2, 5000))
+		w.Must("delegate", s.delegate(0, 50000))
+		must(w.AdvanceToNextEpoch(chain.BlockDt))
+		w.Must("pay", s.pay(0, 0, specA, 500))
+		w.Must("pay", s.pay(1, 1, specB, 700))
+		must(w.NextBlock(24 * time.Hour)) // the refill
+		must(w.AdvanceToNextEpoch(chain.BlockDt))
+		w.Must("pay", s.pay(0, 0, specA, 300))
+		sub, ok := w.Keepers.Subscription.GetSubscription(w.Ctx, s.cons[0].Addr.String())
+		if !ok {
+			panic("fixture(late): no subscription")
+		}
+		for time.Unix(int64(sub.MonthExpiryTime), 0).Sub(w.Ctx.BlockTime()) > 25*time.Hour {
+			must(w.NextBlock(24 * time.Hour))
+		}
+		must(w.AdvanceToNextEpoch(chain.BlockDt))
+		// cross the month expiry (the payout timers are armed blocks-to-save blocks ahead), then one long block up to
+		// 12 h before the refill: the payouts are still pending and will run inside the last 24 h
+		if left := time.Unix(int64(sub.MonthExpiryTime), 0).Sub(w.Ctx.BlockTime()); left > 0 {
+			must(w.NextBlock(left + time.Second))
+		}
+		must(w.NextBlock(chain.BlockDt))
+		if ttl := w.Keepers.Rewards.TimeToNextTimerExpiry(w.Ctx); ttl > 13*3600 {
+			must(w.NextBlock(time.Duration(ttl)*time.Second - 12*time.Hour))
+		}
+		if ttl := w.Keepers.Rewards.TimeToNextTimerExpiry(w.Ctx); ttl <= 0 || ttl > 24*3600 {
+			panic(fmt.Sprintf("fixture(late): %d s to the next refill, want within the last 24 h", ttl))
+		}
+		if n := len(w.Keepers.Subscription.ExportCuTrackerTimers(w.Ctx).BlockEntries); n == 0 {
+			panic("fixture(late): no payout pending")
+		}
 	}
 	s.start = w.Ctx.BlockTime()
 	w.MarkFixture()
@@ -411,9 +457,12 @@ func runCheck(property string) func(run *ev.Run) {
 		filtered := ev.NewRun(property, "model_checking")
 		exh := true
 		begin := time.Now()
-		for i, n := range []string{"aged", "fresh"} {
-			dl := deadline * 6 / 10
+		for i, n := range []string{"aged", "late", "fresh"} {
+			dl := deadline * 4 / 10
 			if i == 1 {
+				dl = deadline * 3 / 10
+			}
+			if i == 2 {
 				dl = deadline - time.Since(begin)
 				if dl < 20*time.Second {
 					dl = 20 * time.Second
@@ -430,14 +479,15 @@ func runCheck(property string) func(run *ev.Run) {
 			}
 		}
 		run.Set("exhaustive", exh)
-		run.Set("bound", fmt.Sprintf("all histories up to depth %d over 23 ops (buy/advance-buy/auto-renew/12-month subscriptions, IPRPC funding 1-2 months, relay payments on two specs, delegate/unbond/claim, unstake, plan new version/delete, validator slash of half its stake with jailing, unjail, +1 block, next epoch, past memory, +1 day, +31 days) from a fresh and an aged fixture, horizon 100 days", depth))
+		run.Set("bound", fmt.Sprintf("all histories up to depth %d over 23 ops (buy/advance-buy/auto-renew/12-month subscriptions, IPRPC funding 1-2 months, relay payments on two specs, delegate/unbond/claim, unstake, plan new version/delete, validator slash of half its stake with jailing, unjail, +1 block, next epoch, past memory, +1 day, +31 days) from a fresh fixture, an aged one (a month with payouts, delegation, IPRPC funds, an upgrade) and a late one (subscriptions whose month expires within the last 24 h before a pools refill), horizon 100 days", depth))
 		run.Assume("mock bank/account keeper of testutil/keeper (MintCoins/BurnCoins are visible in its supply); atomic txs emulated as in baseapp; begin/end blockers in app.go order; distribution/slashing/evidence begin-blockers of cosmos are not run (a slash is injected at their position)")
 	}
 }
 
 func init() {
-	bfs.Register("econ/fresh", func() bfs.Scenario { return build(false) })
-	bfs.Register("econ/aged", func() bfs.Scenario { return build(true) })
+	bfs.Register("econ/fresh", func() bfs.Scenario { return build("fresh") })
+	bfs.Register("econ/aged", func() bfs.Scenario { return build("aged") })
+	bfs.Register("econ/late", func() bfs.Scenario { return build("late") })
 	reg.Register(reg.Check{Property: "C09", Level: "model_checking", Run: runCheck("C09")})
 	reg.Register(reg.Check{Property: "C10", Level: "model_checking", Run: runCheck("C10")})
 	reg.Register(reg.Check{Property: "C37", Level: "model_checking", Run: runCheck("C37")})
